@@ -202,3 +202,15 @@ claim("C17",
       "Trusts fs::copy fidelity, systemctl, rustc MIR + extractor; Windows code paths are not compiled here; arbitrary command sequences "
       "beyond the per-command tables are not decided.",
       "DESIGN.md §5 C17")
+
+claim("C06",
+      "clang typed AST guard analysis + helper-encoding table + C record layout vs Rust [u32;N]/repr(C) agreement + byte-order tags",
+      "Decides on the unmodified C source (never built by the test suite) and its Rust reader: the recorded user id / is_root use the low "
+      "word of bpf_get_current_uid_gid and process ids the high word of bpf_get_current_pid_tgid (UAPI encodings); the destination rewrite "
+      "happens only under a policy_map hit keyed by the connect's own destination, after the not-skipped check and after the original "
+      "destination was recorded; audit records are written only for non-skipped processes under a local/policy hit and keyed by the local "
+      "port; every map's key/value size and word order equals the [u32; N] types and #[repr(C)] mirrors the agent opens that map with, "
+      "to_array/from_array keep field i in word offset/4, map and program names agree, byte-order tags match, and the skip map gets a tgid.",
+      "Trusts clang 14 parsing/layout (x86-64 = BPF layout for __u32/__u64 fields), the stub libbpf headers in /verif/cstubs, the UAPI helper "
+      "documentation; verifier acceptance, LRU capacity, cross-thread races and kernel struct offsets are not decided.",
+      "DESIGN.md §5 C06")
